@@ -1398,6 +1398,9 @@ fn replay(v: &Value) -> CaseReport {
     if v.get("close_with_full_pipe").is_some() {
         return crate::adapters::close_with_full_pipe_probe();
     }
+    if let Some(b) = v.get("own_thread_burst") {
+        return own_thread_burst_probe(b["exf"].as_u64().unwrap_or(0) as u8, b["n"].as_u64().unwrap_or(400) as u32);
+    }
     if let Ok(c) = serde_json::from_value::<IterAny>(v.clone()) {
         return run_any(&c);
     }
@@ -1424,16 +1427,100 @@ const ASSUME: &[&str] = &[
     "the async adapters are represented by a harness poller with their documented behaviour: non-blocking 1-byte read, 'would block' arms the waker, the task is parked until the descriptor is readable",
 ];
 
+/// Real signals, no executor: `n` deliveries of a watched signal arrive on the consumer's own
+/// thread while it is not draining (a single-threaded program busy elsewhere), then it consumes.
+/// It must obtain the signal - which presupposes that every one of those deliveries returns to
+/// it: the consumer thread is the only reader of the self-pipe.
+fn own_thread_burst_child<E>(n: u32, fd: i32)
+where
+    E: Exfiltrator + Default,
+    E::Output: Rec,
+{
+    crate::vsched::install();
+    crate::forkrun::ignore_sigpipe();
+    let mut sigs = match SignalsInfo::<E>::new(&[libc::SIGUSR1, libc::SIGUSR2]) {
+        Ok(s) => s,
+        Err(_) => return,
+    };
+    crate::forkrun::emit(fd, &json!({"k": "burst-start", "n": n}));
+    for _ in 0..n {
+        unsafe { libc::raise(libc::SIGUSR1) };
+    }
+    crate::forkrun::emit(fd, &json!({"k": "burst-done"}));
+    let got: Vec<c_int> = sigs.pending().map(|r| r.sig()).collect();
+    crate::forkrun::emit(fd, &json!({"k": "pending", "got": got}));
+    // and the blocking interface afterwards: a further delivery of the other signal
+    unsafe { libc::raise(libc::SIGUSR2) };
+    let got2: Vec<c_int> = sigs.wait().map(|r| r.sig()).collect();
+    crate::forkrun::emit(fd, &json!({"k": "wait", "got": got2}));
+    crate::forkrun::emit(fd, &json!({"k": "done"}));
+}
+
+pub fn own_thread_burst_probe(exf: u8, n: u32) -> CaseReport {
+    let (recs, end) = crate::forkrun::fork_stream(5_000, move |fd| match exf % 3 {
+        0 => own_thread_burst_child::<SignalOnly>(n, fd),
+        1 => own_thread_burst_child::<WithRawSiginfo>(n, fd),
+        _ => own_thread_burst_child::<WithOrigin>(n, fd),
+    });
+    let mut rep = CaseReport::default();
+    rep.hash = hash_of(&("own-thread-burst", exf, n));
+    rep.class("burst-on-the-consumer's-own-thread");
+    rep.nontrivial = n >= 300;
+    rep.sample = Some(json!({"own_thread_burst": {"exf": exf, "n": n}, "records": recs, "end": format!("{:?}", end)}));
+    match &end {
+        crate::forkrun::End::Timeout => {
+            let started = recs.iter().any(|r| r["k"] == "burst-start");
+            let finished = recs.iter().any(|r| r["k"] == "burst-done");
+            let sys = crate::forkrun::last_timeout_syscall();
+            let nr = sys.split_whitespace().next().unwrap_or("").to_string();
+            if started && !finished && (nr == libc::SYS_write.to_string() || nr == libc::SYS_sendto.to_string()) {
+                rep.viol("C09/consumer-stuck-in-delivery", format!("{} deliveries of a watched signal arrived on the consumer's own thread while it was not draining: one of them never returned (the thread sits in a blocking write, syscall state `{}`), so the consumer can never obtain the signal - it is the only reader of that pipe", n, sys.trim()));
+            } else {
+                rep.inconclusive = Some(format!("own-thread burst probe timed out ({})", sys.trim()));
+            }
+        }
+        crate::forkrun::End::Infra(e) => rep.inconclusive = Some(e.clone()),
+        crate::forkrun::End::Signaled(s) => rep.viol("C09/consumer-panic", format!("own-thread burst of {}: the process was killed by signal {}", n, s)),
+        crate::forkrun::End::Exited(_) => {
+            if !recs.iter().any(|r| r["k"] == "done") {
+                rep.viol("C09/consumer-panic", format!("own-thread burst of {}: the consumer did not finish (records {:?})", n, recs.last()));
+                return rep;
+            }
+            let has = |k: &str, s: c_int| recs.iter().find(|r| r["k"] == k).and_then(|r| r["got"].as_array()).map_or(false, |a| a.iter().any(|x| x.as_i64() == Some(s as i64)));
+            if !has("pending", libc::SIGUSR1) {
+                rep.viol("C09/unreported@quiescence", format!("{} deliveries of SIGUSR1 arrived before the consumer looked; pending() did not report the signal", n));
+            }
+            if !has("wait", libc::SIGUSR2) {
+                rep.viol("C09/unreported@quiescence", format!("after a burst of {} a delivery of SIGUSR2 was not reported by wait()", n));
+            }
+        }
+    }
+    rep
+}
+
+fn c09_extra(def: &PropDef, _args: &WorkerArgs, report: &mut WorkerReport) {
+    let known = Known::load();
+    for exf in 0..3u8 {
+        for n in [1u32, 6, 400, 3000] {
+            let rep = own_thread_burst_probe(exf, n);
+            if let Some(v) = report.absorb(def, &rep, &known) {
+                report.violation = Some((v.key, v.msg, json!({"own_thread_burst": {"exf": exf, "n": n}})));
+                return;
+            }
+        }
+    }
+}
+
 pub static C09: PropDef = PropDef {
     id: "C09",
     prefixes: &["C09/"],
-    rule: "proptest-generated scenarios: exfiltrator (3) x consumer mode {wait loop, forever, pending polling, poll_signal with readiness callback, a fresh forever() per item} x 1-3 other threads with <=6 ops over {deliver (3 signals), add_signal, is_closed} x nested deliveries into any thread x byte schedule; a quiescence observer thread runs only when no other thread can, then closes the instance. Oracle: every finished delivery of a watched signal has a yield of that signal whose load step lies after the delivery's store, before quiescence; anything that only comes out after the observer's close was delivered, unreported and un-woken. Non-trivial = a store landed inside a consumer call or the consumer blocked; distinct = hash of realised call/return/delivery/yield interleaving",
+    rule: "proptest-generated scenarios: exfiltrator (3) x consumer mode {wait loop, forever, pending polling, poll_signal with readiness callback, a fresh forever() per item} x 1-3 other threads with <=6 ops over {deliver (3 signals), add_signal, is_closed} x nested deliveries into any thread x byte schedule; a quiescence observer thread runs only when no other thread can, then closes the instance. Oracle: every finished delivery of a watched signal has a yield of that signal whose load step lies after the delivery's store, before quiescence; anything that only comes out after the observer's close was delivered, unreported and un-woken. Worker 0 adds a real-signal probe per exfiltrator: 1 / 6 / 400 / 3000 deliveries arrive on the consumer's own thread while it is not draining, then pending() and wait() must report (every such delivery has to return to the only reader of the pipe). Non-trivial = a store landed inside a consumer call or the consumer blocked; distinct = hash of realised call/return/delivery/yield interleaving",
     assumptions: ASSUME,
     cases: (1200, 30_000),
     shrink_iters: 600,
     worker: w09,
     replay,
-    extra: None,
+    extra: Some(c09_extra),
 };
 
 pub static C10: PropDef = PropDef {
